@@ -2109,6 +2109,124 @@ template <class X> static inline X* opaque (X* p)
     return p;
 }
 
+// A misaligned aligned-load instruction kills the process before any failure can be recorded.  So that the driver's
+// "binary aborted" line says where, the call in flight is noted in a thread-local and a handler for the fatal
+// signals writes it to stderr (async-signal-safe code only) before the default action takes the process down.
+// Not installed under ASan / libFuzzer, which print their own reports from their own handlers.
+#if defined(__has_feature)
+#if __has_feature(address_sanitizer)
+#define C05_HAVE_ASAN 1
+#endif
+#endif
+#if defined(__SANITIZE_ADDRESS__) || defined(VP_FUZZ)
+#define C05_HAVE_ASAN 1
+#endif
+struct PCrumb
+{
+    const char*   what;  // nullptr: no call of this section in flight
+    const char*   key;
+    const char*   phase; // which of the two runs (or the release of the heap blocks after the placed one)
+    int           kind;
+    unsigned long off[3];
+};
+static thread_local PCrumb p_crumb = { nullptr, nullptr, nullptr, 0, { 0, 0, 0 } };
+static const char* const   P_PH_LOCAL  = "in the run on ORDINARY LOCALS (their addresses mod 64 follow) of ";
+static const char* const   P_PH_PLACED = "in the run on placed objects of ";
+static const char* const   P_PH_FREE   = "while releasing the heap blocks after the run on placed objects of ";
+#ifndef C05_HAVE_ASAN
+#include <csignal>
+#include <unistd.h>
+static size_t p_app (char* buf, size_t n, size_t cap, const char* t)
+{
+    while (*t && n + 1 < cap)
+        buf[n++] = *t++;
+    return n;
+}
+static size_t p_app_u (char* buf, size_t n, size_t cap, unsigned long v)
+{
+    char   d[24];
+    size_t k = 0;
+    do
+    {
+        d[k++] = (char) ('0' + v % 10);
+        v /= 10;
+    } while (v && k < sizeof (d));
+    while (k && n + 1 < cap)
+        buf[n++] = d[--k];
+    return n;
+}
+static void p_on_fatal_signal (int sig)
+{
+    // (SA_RESETHAND: the default action is back in place; returning re-executes the faulting instruction)
+    if (sig == SIGABRT && !p_crumb.what) return;
+    char   buf[900];
+    size_t n = 0, cap = sizeof (buf);
+    n = p_app (buf, n, cap, "\nC05 placement sub-checks: fatal signal ");
+    n = p_app_u (buf, n, cap, (unsigned long) sig);
+    if (p_crumb.what)
+    {
+        n = p_app (buf, n, cap, " [");
+        n = p_app (buf, n, cap, p_crumb.key);
+        n = p_app (buf, n, cap, "] ");
+        n = p_app (buf, n, cap, p_crumb.phase);
+        n = p_app (buf, n, cap, p_crumb.what);
+        n = p_app (buf, n, cap, " with (left, right, result) each a ");
+        n = p_app (buf, n, cap, PK_NAME[p_crumb.kind]);
+        n = p_app (buf, n, cap, " at byte offsets (");
+        n = p_app_u (buf, n, cap, p_crumb.off[0]);
+        n = p_app (buf, n, cap, ", ");
+        n = p_app_u (buf, n, cap, p_crumb.off[1]);
+        n = p_app (buf, n, cap, ", ");
+        n = p_app_u (buf, n, cap, p_crumb.off[2]);
+        n = p_app (buf, n, cap, ") from a 64-byte boundary");
+    }
+    else
+        n = p_app (buf, n, cap, " outside a placed call");
+    n = p_app (buf, n, cap, "\n");
+    if (write (2, buf, n) < 0) {}
+}
+static struct PSigInit
+{
+    PSigInit ()
+    {
+        static const int sigs[] = { SIGSEGV, SIGBUS, SIGILL, SIGFPE, SIGABRT };
+        for (size_t i = 0; i < sizeof (sigs) / sizeof (sigs[0]); ++i)
+        {
+            struct sigaction sa;
+            memset (&sa, 0, sizeof (sa));
+            sa.sa_handler = p_on_fatal_signal;
+            sa.sa_flags   = SA_RESETHAND | SA_NODEFER;
+            sigemptyset (&sa.sa_mask);
+            sigaction (sigs[i], &sa, nullptr);
+        }
+    }
+} p_sig_init;
+#endif
+struct PCrumbScope
+{
+    PCrumb saved;
+    PCrumbScope (const char* phase, const char* key, const char* what, int kind, size_t oa, size_t ob, size_t oc) : saved (p_crumb)
+    {
+        p_crumb.key    = key;
+        p_crumb.phase  = phase;
+        p_crumb.kind   = kind;
+        p_crumb.off[0] = (unsigned long) oa;
+        p_crumb.off[1] = (unsigned long) ob;
+        p_crumb.off[2] = (unsigned long) oc;
+        p_crumb.what   = what;
+        asm volatile ("" : : : "memory"); // the note is only read by a signal handler: keep the stores, and keep them before the call
+    }
+    ~PCrumbScope ()
+    {
+        asm volatile ("" : : : "memory");
+        p_crumb = saved;
+        asm volatile ("" : : : "memory");
+    }
+    PCrumbScope (const PCrumbScope&)            = delete;
+    PCrumbScope& operator= (const PCrumbScope&) = delete;
+};
+#define P_OFF_OF(p, base) ((size_t) ((const char*) (p) - (const char*) (base)))
+
 struct Slab
 {
     enum
@@ -2257,7 +2375,10 @@ template <class Op, class X, class Y, class R> static void run_placed (PCtx& P, 
     X        la (a0);
     Y        lb (b0);
     R        lr (r0);
-    op.run (la, lb, lr);
+    {
+        PCrumbScope cs (P_PH_LOCAL, op.key, op.what, P.kind, (size_t) ((uintptr_t) &la % 64), (size_t) ((uintptr_t) &lb % 64), (size_t) ((uintptr_t) &lr % 64));
+        op.run (la, lb, lr);
+    }
     switch (P.kind)
     {
         case PK_SLAB:
@@ -2270,7 +2391,10 @@ template <class Op, class X, class Y, class R> static void run_placed (PCtx& P, 
             X*     pa = opaque (sl.put (0, oa, a0));
             Y*     pb = opaque (sl.put (1, ob, b0));
             R*     pr = opaque (sl.put (2, oc, r0));
-            op.run (*pa, *pb, *pr);
+            {
+                PCrumbScope cs (P_PH_PLACED, op.key, op.what, P.kind, oa, ob, oc);
+                op.run (*pa, *pb, *pr);
+            }
             PObj o_[3] = { { &la, pa, sizeof (X), (int) sizeof (typename ElemOf<X>::type), oa }, { &lb, pb, sizeof (Y), (int) sizeof (typename ElemOf<Y>::type), ob }, { &lr, pr, sizeof (R), (int) sizeof (typename ElemOf<R>::type), oc } };
             placed_verify (c, op.key, op.what, P.kind, o_, &sl);
             break;
@@ -2280,12 +2404,16 @@ template <class Op, class X, class Y, class R> static void run_placed (PCtx& P, 
             size_t   oa = draw_off<X> (c.s);
             size_t   ob = draw_off<Y> (c.s);
             size_t   oc = draw_off<R> (c.s);
-            HeapTail ha (oa + sizeof (X)), hb (ob + sizeof (Y)), hr (oc + sizeof (R));
+            PCrumbScope cf (P_PH_FREE, op.key, op.what, P.kind, oa, ob, oc); // declared before the blocks: still in place when they are released
+            HeapTail    ha (oa + sizeof (X)), hb (ob + sizeof (Y)), hr (oc + sizeof (R));
             if (!ha.p || !hb.p || !hr.p) c.discard ("out of memory");
             X* pa = opaque (new (ha.p + oa) X (a0));
             Y* pb = opaque (new (hb.p + ob) Y (b0));
             R* pr = opaque (new (hr.p + oc) R (r0));
-            op.run (*pa, *pb, *pr);
+            {
+                PCrumbScope cs (P_PH_PLACED, op.key, op.what, P.kind, oa, ob, oc);
+                op.run (*pa, *pb, *pr);
+            }
             PObj o_[3] = { { &la, pa, sizeof (X), (int) sizeof (typename ElemOf<X>::type), oa }, { &lb, pb, sizeof (Y), (int) sizeof (typename ElemOf<Y>::type), ob }, { &lr, pr, sizeof (R), (int) sizeof (typename ElemOf<R>::type), oc } };
             placed_verify (c, op.key, op.what, P.kind, o_, nullptr);
             break;
@@ -2298,7 +2426,10 @@ template <class Op, class X, class Y, class R> static void run_placed (PCtx& P, 
             rec.b   = b0;
             rec.r   = r0;
             RecPad1<X, Y, R>* q = opaque (&rec);
-            op.run (q->a, q->b, q->r);
+            {
+                PCrumbScope cs (P_PH_PLACED, op.key, op.what, P.kind, P_OFF_OF (&q->a, q), P_OFF_OF (&q->b, q), P_OFF_OF (&q->r, q));
+                op.run (q->a, q->b, q->r);
+            }
             P_OBJS (X, Y, R, la, lb, lr, &q->a, &q->b, &q->r, q);
             placed_verify (c, op.key, op.what, P.kind, o_, nullptr);
             if (q->pad != 0x5A5A5A5A) placed_fail (c, op.key, op.what, P.kind, o_, -1, 0, true);
@@ -2312,7 +2443,10 @@ template <class Op, class X, class Y, class R> static void run_placed (PCtx& P, 
             rec.b                                = b0;
             rec.r                                = r0;
             RecPad3<X, Y, R>* q = opaque (&rec);
-            op.run (q->a, q->b, q->r);
+            {
+                PCrumbScope cs (P_PH_PLACED, op.key, op.what, P.kind, P_OFF_OF (&q->a, q), P_OFF_OF (&q->b, q), P_OFF_OF (&q->r, q));
+                op.run (q->a, q->b, q->r);
+            }
             P_OBJS (X, Y, R, la, lb, lr, &q->a, &q->b, &q->r, q);
             placed_verify (c, op.key, op.what, P.kind, o_, nullptr);
             if (q->pad[0] != 0x5A5A5A5A || q->pad[1] != 0x5A5A5A5A || q->pad[2] != 0x5A5A5A5A) placed_fail (c, op.key, op.what, P.kind, o_, -1, 0, true);
@@ -2325,7 +2459,10 @@ template <class Op, class X, class Y, class R> static void run_placed (PCtx& P, 
             rec.b = b0;
             rec.r = r0;
             RecVptr<X, Y, R>* q = opaque (&rec);
-            op.run (q->a, q->b, q->r);
+            {
+                PCrumbScope cs (P_PH_PLACED, op.key, op.what, P.kind, P_OFF_OF (&q->a, q), P_OFF_OF (&q->b, q), P_OFF_OF (&q->r, q));
+                op.run (q->a, q->b, q->r);
+            }
             P_OBJS (X, Y, R, la, lb, lr, &q->a, &q->b, &q->r, q);
             placed_verify (c, op.key, op.what, P.kind, o_, nullptr);
             break;
@@ -2338,7 +2475,10 @@ template <class Op, class X, class Y, class R> static void run_placed (PCtx& P, 
             std::pair<int, X>*             qa = opaque (&xa);
             std::pair<int, Y>*             qb = opaque (&xb);
             std::pair<int, R>*             qr = opaque (&xr);
-            op.run (qa->second, qb->second, qr->second);
+            {
+                PCrumbScope cs (P_PH_PLACED, op.key, op.what, P.kind, P_OFF_OF (&qa->second, qa), P_OFF_OF (&qb->second, qb), P_OFF_OF (&qr->second, qr));
+                op.run (qa->second, qb->second, qr->second);
+            }
             PObj o_[3] = { { &la, &qa->second, sizeof (X), (int) sizeof (typename ElemOf<X>::type), (size_t) ((const char*) &qa->second - (const char*) qa) },
                            { &lb, &qb->second, sizeof (Y), (int) sizeof (typename ElemOf<Y>::type), (size_t) ((const char*) &qb->second - (const char*) qb) },
                            { &lr, &qr->second, sizeof (R), (int) sizeof (typename ElemOf<R>::type), (size_t) ((const char*) &qr->second - (const char*) qr) } };
@@ -2702,16 +2842,16 @@ template <class S, class T> static void place_case (vp::Ctx& c, bool vecmat_only
 #define C05P_RULE "every spelling run on ordinary locals and on operands + result object placed at addresses valid for the type but not 16/32/64-byte aligned: own slot of a 64-byte aligned buffer at offset {4,8,12,20,36,28,44,52,60,16,48,32} (float types) / {8,24,40,56,16,48,32} (double types) with guard bytes, tail of a heap block, members of struct{int pad; X a; Y b; R r;} / struct{int pad[3]; R r; X a; Y b;} / a polymorphic class / std::pair<int,.>; all three objects bit-identical to the run on locals, guard bytes intact (a crash or sanitizer report ends the binary = violation); operand values as in sections 1-6; non-trivial = some object of a call not 16-byte aligned"
 #define C05P_REQ "lattice", "sparse", "graded", "random", "placed_slab_offset", "placed_heap_block_tail", "placed_member_after_int", "placed_member_after_3_ints", "placed_member_after_vptr", "placed_pair_second", "some_object_not_16_aligned", "all_objects_not_16_aligned", "some_object_16_not_32_aligned", "some_object_32_not_64_aligned", "dim2", "dim3", "dim4"
 #define C05P_REQ_ALL C05P_REQ, "family_vec_dot_cross", "family_quat", "family_matrix_x_matrix", "family_vector_x_matrix", "family_outer_transpose_trace", "family_det_minors"
-VP_RANDOM (place_f, 400000, 8000000, "float: V2/3/4 dot,^,cross,%,%=; Quat *,*=,^; M22/33/44 *,*=,A*=A, M44::multiply 2-/3-argument; VxM *,*=,multVecMatrix,multDirMatrix (5 combinations, src==dst); outerProduct, transposed, transpose, trace; determinant, minorOf, fastMinor: " C05P_RULE) { place_case<float, float> (c, false); }
+VP_RANDOM (place_f, 1500000, 30000000, "float: V2/3/4 dot,^,cross,%,%=; Quat *,*=,^; M22/33/44 *,*=,A*=A, M44::multiply 2-/3-argument; VxM *,*=,multVecMatrix,multDirMatrix (5 combinations, src==dst); outerProduct, transposed, transpose, trace; determinant, minorOf, fastMinor: " C05P_RULE) { place_case<float, float> (c, false); }
 VP_LABELS (place_f, C05P_LABELS)
 VP_REQUIRE_LABELS (place_f, C05P_REQ_ALL)
-VP_RANDOM (place_d, 400000, 8000000, "double: V2/3/4 dot,^,cross,%,%=; Quat *,*=,^; M22/33/44 *,*=,A*=A, M44::multiply 2-/3-argument; VxM *,*=,multVecMatrix,multDirMatrix (5 combinations, src==dst); outerProduct, transposed, transpose, trace; determinant, minorOf, fastMinor: " C05P_RULE) { place_case<double, double> (c, false); }
+VP_RANDOM (place_d, 1500000, 30000000, "double: V2/3/4 dot,^,cross,%,%=; Quat *,*=,^; M22/33/44 *,*=,A*=A, M44::multiply 2-/3-argument; VxM *,*=,multVecMatrix,multDirMatrix (5 combinations, src==dst); outerProduct, transposed, transpose, trace; determinant, minorOf, fastMinor: " C05P_RULE) { place_case<double, double> (c, false); }
 VP_LABELS (place_d, C05P_LABELS)
 VP_REQUIRE_LABELS (place_d, C05P_REQ_ALL)
-VP_RANDOM (place_fd, 150000, 3000000, "float vector x double matrix, *,*=,multVecMatrix,multDirMatrix (5 combinations, src==dst): " C05P_RULE) { place_case<float, double> (c, true); }
+VP_RANDOM (place_fd, 500000, 10000000, "float vector x double matrix, *,*=,multVecMatrix,multDirMatrix (5 combinations, src==dst): " C05P_RULE) { place_case<float, double> (c, true); }
 VP_LABELS (place_fd, C05P_LABELS)
 VP_REQUIRE_LABELS (place_fd, C05P_REQ, "family_vector_x_matrix")
-VP_RANDOM (place_df, 150000, 3000000, "double vector x float matrix, *,*=,multVecMatrix,multDirMatrix (5 combinations, src==dst): " C05P_RULE) { place_case<double, float> (c, true); }
+VP_RANDOM (place_df, 500000, 10000000, "double vector x float matrix, *,*=,multVecMatrix,multDirMatrix (5 combinations, src==dst): " C05P_RULE) { place_case<double, float> (c, true); }
 VP_LABELS (place_df, C05P_LABELS)
 VP_REQUIRE_LABELS (place_df, C05P_REQ, "family_vector_x_matrix")
 
